@@ -146,8 +146,17 @@ def rule_apply_window(chk: Check, model: Model, rid: str):
     ev.invoke(c_aw, [S("graph")], r.frame)
     sub = ev.events[n0:]
     wins = [e for e in sub if e.kind == "call" and e.name == "new:Window" and e.func == f_aw.qualname]
+    win_fields = _fields(wins[0].term) if len(wins) == 1 else {}
+    if not wins:
+        # the initial window taken from the initial indexed window, `IndexedWindow(...).to_window()` (to_window copies seq / ts_sent / ts_recv:
+        # checked above): its three columns are those of the indexed window
+        tws = [e for e in sub if e.kind == "call" and e.name.endswith(".to_window") and e.func == f_aw.qualname and e.recv is not None and e.recv[0] == "obj" and e.recv[1] == "IndexedWindow" and not e.loops[1:]]
+        tws = [e for e in tws if any(sc.kind == "call" and sc.name == "jax.lax.scan" and len(sc.args) > 1 and sc.args[1] == e.term for sc in sub)]
+        if len(tws) == 1:
+            wins = tws
+            win_fields = {k: v for k, v in _fields(tws[0].recv).items() if k in ("seq", "ts_sent", "ts_recv")}
     if len(wins) == 1:
-        seqv = _fields(wins[0].term).get("seq", T.NONE)
+        seqv = win_fields.get("seq", T.NONE)
         # [-1] * (c.window + c.delay_dist.window(sender rate))   (or full((n,), -1))
         fill = _const_fill(seqv)
         ok = fill is not None and T.const_value(fill[0]) == -1
@@ -163,7 +172,7 @@ def rule_apply_window(chk: Check, model: Model, rid: str):
             ok = n == want
         chk.add(rid, "window length = window + delay_dist.window(sender rate)", bool(ok), f"initial window length is {T.show(n)[:240]}, expected c.window + c.delay_dist.window(nodes[sender].rate)",
                 chk.loc(f_aw, wins[0].node))
-        f = _fields(wins[0].term)
+        f = win_fields
         fs, fr = _const_fill(f.get("ts_sent", T.NONE)), _const_fill(f.get("ts_recv", T.NONE))
         chk.add(rid, "initial window is all -1 / 0.0", fs is not None and T.const_value(fs[0]) == 0 and fs[1] == n and (fr is None or (T.const_value(fr[0]) == 0 and fr[1] == n)),
                 "initial ts_sent / ts_recv must be zeros of the window length", chk.loc(f_aw, wins[0].node))
